@@ -8,6 +8,9 @@ args = sys.argv[1:]
 j = 3
 if args and args[0] == "-j":
     j = int(args[1]); args = args[2:]
+BIN = tempfile.mktemp(prefix="raftlint-batch-")
+shutil.copy(os.path.join(root, "bin", "raftlint"), BIN)  # rebuilds during a batch must not change the verdicts
+os.chmod(BIN, 0o755)
 def one(d):
     tmp = tempfile.mkdtemp(prefix="patchrun-")
     try:
@@ -16,7 +19,7 @@ def one(d):
         r = subprocess.run(["patch", "-p1", "-s", "-i", os.path.join(d, "patch.diff")], cwd=dst, capture_output=True, text=True)
         if r.returncode != 0:
             return d, "PATCH-FAIL " + r.stdout[-200:]
-        rr = subprocess.run([os.path.join(root, "bin", "raftlint"), "-all", "-repo", dst], capture_output=True, text=True)
+        rr = subprocess.run([BIN, "-all", "-repo", dst], capture_output=True, text=True, env=dict(os.environ, VERIF_DIR=root))
         lines = [l for l in rr.stdout.splitlines() if not l.startswith("PASS")]
         return d, "\n".join(lines) if lines else "ALL-PASS"
     finally:
@@ -24,3 +27,4 @@ def one(d):
 with cf.ThreadPoolExecutor(j) as ex:
     for d, out in ex.map(one, args):
         print("==", d); print(out); sys.stdout.flush()
+os.remove(BIN)
